@@ -3,6 +3,7 @@ NEXT Next
 CONSTANTS
   KemSet = {32, 16, 17, 18}
   NIkm = 2
+  IkmSweep = 0
   SmallOrder = TRUE
   Emit = FALSE
 VIEW ViewNone
